@@ -274,6 +274,8 @@ def carrier_inventory(ctx, report, rule, facts, config):
         for v in adt["variants"]:
             for f in v["fields"]:
                 ty = f["ty"]
+                if ty.startswith("&") and not ty.startswith("&mut") and not ty.startswith("&'static mut") and " mut " not in ty.split("<", 1)[0]:
+                    continue    # a shared reference to a carrier owns no system and cannot change one
                 holds = A.T_RUNNOW in ty or any((c + "<") in ty or ty == c or (c + ">") in ty or ty.endswith(c) for c in carriers)
                 if path in known and f["name"] in known[path]:
                     n += 1
